@@ -59,6 +59,15 @@ Values(t, d) ==
                                 (IF t.signed THEN {I(TRUE, <<1>>), I(TRUE, Pow2(t.bits - 1))} ELSE {}))
       [] t.k = "float" -> {Fl(FALSE, <<>>, 0), Fl(FALSE, <<1, 5>>, 1)}
                           \cup (IF d = 0 THEN {} ELSE {Fl(TRUE, <<>>, 0), Fl(FALSE, <<1>>, 22), Fl(TRUE, <<2, 5>>, -6), Fl(FALSE, <<1>>, 3)})
+      [] t.k = "dur" -> {I(FALSE, <<0>>), I(FALSE, <<1, 5, 0, 0, 0, 0, 0, 0, 0, 0>>), I(TRUE, <<1>>)}
+                        \cup (IF d = 0 THEN {} ELSE {I(FALSE, MaxI64), I(TRUE, Pow2(63)), I(TRUE, <<5, 0, 0, 0, 0, 0, 0, 0, 0>>), I(FALSE, <<1, 0, 0, 0>>)})
+      [] t.k = "time" -> {ZeroTime, I(FALSE, <<0>>), I(FALSE, <<1, 5, 0, 0, 0, 0, 0, 0, 0, 0>>), I(TRUE, <<5, 0, 0, 0, 0, 0, 0, 0, 0>>)}
+                         \cup (IF d = 0 THEN {} ELSE
+                               {I(FALSE, Pow2(63)), I(FALSE, MaxI64), I(FALSE, Pow2(64)), I(FALSE, MaxU64), I(TRUE, Pow2(64)),
+                                \* 10^18 ns + 1: the last second of the short-cut in the milli/micro/nano formats
+                                I(FALSE, <<9, 9, 9, 9, 9, 9, 9, 9, 9, 9, 9, 9, 9, 9, 9, 9, 9, 9>>), I(FALSE, <<1>> \o [i \in 1..17 |-> 0] \o <<1>>),
+                                \* 1.8e25 ns: 2^64 milliseconds
+                                I(FALSE, Pow2(64) \o <<0, 0, 0, 0, 0, 1>>)})
       [] t.k = "bytes" -> {[nil |-> TRUE, b |-> <<>>], [nil |-> FALSE, b |-> <<0>>], [nil |-> FALSE, b |-> <<255, 1>>]}
                           \cup (IF d = 0 THEN {} ELSE {[nil |-> FALSE, b |-> <<>>], [nil |-> FALSE, b |-> <<1, 2, 3>>], [nil |-> FALSE, b |-> <<104, 105, 33, 0>>]})
       [] t.k = "barr" -> {[b |-> [i \in 1..t.n |-> 0]], [b |-> [i \in 1..t.n |-> 250 + i]]}
@@ -120,6 +129,13 @@ Inputs(t, d) ==
       [] t.k = "str" -> {S(<<>>), S(<<97>>)} \cup (IF d = 0 THEN {} ELSE {N(<<49>>), S(<<60, 233, 34, 128512>>), Arr(<<>>)})
       [] t.k = "int" -> IntInputs(t, d)
       [] t.k = "float" -> FloatInputs(d)
+      [] t.k \in {"dur", "time"} ->
+            {N(<<48>>), N(<<49, 46, 53>>), N(<<45, 48, 46, 53>>), S(<<49, 46, 53>>)}
+            \cup (IF d = 0 THEN {} ELSE
+                  {N(<<45, 48>>), N(<<45, 48, 46, 48>>), N(<<49, 101, 51>>), N(<<49, 46, 48, 48, 48, 48, 48, 48, 48, 48, 48, 49, 57>>), N(<<48, 46, 48, 48, 48, 48, 48, 48, 48, 48, 49>>),
+                   N(Chars(MaxI64)), N(Chars(Pow2(63))), N(<<45>> \o Chars(Pow2(63))), N(<<45>> \o Chars(Pow2(63)) \o <<46, 53>>), N(Chars(Pow2(64))), N(Chars(MaxU64) \o <<46, 57, 57, 57>>),
+                   N(Chars(MaxI64) \o <<48, 48, 48, 46, 49>>), N(Chars(Pow2(64)) \o <<48, 48, 48, 48, 48, 48>>),
+                   S(<<>>), S(<<43, 49>>), S(<<49, 46>>), S(<<46, 53>>), S(<<48, 49>>), S(<<49, 46, 50, 46, 51>>), S(<<45, 49, 46, 53>>), S(<<49, 46, 53, 120>>), B(TRUE)})
       [] t.k \in {"bytes", "barr"} ->
             {S(<<>>), S(<<65, 65, 61, 61>>), S(<<65, 81, 73, 68>>), S(<<97, 71, 107, 61>>)}
             \cup (IF d = 0 THEN {} ELSE
